@@ -486,3 +486,77 @@ def unicode_overlay(spec, f, rng):
             extra = [uni_uri(rng)] + [f[a] for a in info["uri"][:1]]
             f["args"] = (tuple if type(f["args"]) is tuple else list)(list(f["args"]) + extra)
     return info
+
+
+# ------------------------------------------------------------------------------------------------
+# pattern URIs per match policy (SUBSCRIBE.topic / REGISTER.procedure): exact -> no empty component; prefix -> also a
+# trailing empty component; wildcard -> empty components at leading / inner / trailing positions, several of them
+# ------------------------------------------------------------------------------------------------
+
+PATTERN_CLASSES = {"Subscribe": "topic", "Register": "procedure"}
+PATTERN_SHAPES = {
+    None: ["none"],
+    "exact": ["none"],
+    "prefix": ["none", "trailing", "only-empty"],
+    "wildcard": ["none", "leading", "inner", "trailing", "multiple", "leading+trailing", "all-empty", "only-empty"],
+}
+_ASCII_COMPONENTS = ["a", "com", "myapp", "x_1", "create", "B-c", "z9", "topic1"]
+
+
+def pattern_uri(rng, shape):
+    c = lambda: rng.choice(_ASCII_COMPONENTS)   # noqa: E731
+    if shape == "none":
+        return ".".join(c() for _ in range(rng.choice([1, 2, 3, 4])))
+    if shape == "trailing":
+        return ".".join(c() for _ in range(rng.choice([1, 2, 3]))) + "."
+    if shape == "only-empty":
+        return ""
+    if shape == "leading":
+        return "." + ".".join(c() for _ in range(rng.choice([1, 2, 3])))
+    if shape == "inner":
+        return rng.choice(["{}..{}", "{}.{}..{}", "{}..{}.{}"]).format(c(), c(), c())
+    if shape == "multiple":
+        return rng.choice(["{}...{}..{}", "{}..{}..{}", ".{}..{}", "{}..{}...{}"]).format(c(), c(), c())
+    if shape == "leading+trailing":
+        return rng.choice([".{}.", ".{}.{}.", ".{}..{}.", "..{}.."]).format(c(), c())
+    if shape == "all-empty":
+        return rng.choice([".", "..", "...", "....."])
+    raise ValueError(shape)
+
+
+def match_overlay(spec, f, rng):
+    """Give the pattern URI of a SUBSCRIBE / REGISTER a shape that is admissible under its match policy (in place).
+    -> (match, shape) or None"""
+    attr = PATTERN_CLASSES.get(spec.name)
+    if attr is None:
+        return None
+    m = f.get("match")
+    shape = rng.choice(PATTERN_SHAPES[m])
+    f[attr] = pattern_uri(rng, shape)
+    return [m or "absent", shape]
+
+
+def pattern_cases(seed, part, parts, reps=4):
+    """Every (class, match policy, admissible URI shape) x {no other option, all other options} x {ASCII, Unicode components}
+    at least once per run.  Yields (k, label, fields, [match, shape]); even k => the Unicode overlay is applied on top."""
+    k = 0
+    for name in PATTERN_CLASSES:
+        spec = G.BY_NAME[name]
+        others = [o for o in spec.opts if o.key != "match"]
+        for m in (None, "exact", "prefix", "wildcard"):
+            for shape in PATTERN_SHAPES[m]:
+                for with_opts in (False, True):
+                    for rep in range(reps):
+                        k += 1
+                        if k % parts != part:
+                            continue
+                        rng = random.Random("%s/c03/pattern/%s/%d" % (seed, name, k))
+                        f = G.required_fields(spec, k, ())
+                        if m is not None:
+                            f["match"] = m
+                        if with_opts:
+                            for i, o in enumerate(others):
+                                pl = G.pool(spec, o)
+                                f[o.attr] = pl[(k + i) % len(pl)]
+                        f[PATTERN_CLASSES[name]] = pattern_uri(rng, shape)
+                        yield k, "%s/pattern-%s-%s%s" % (name, m or "absent", shape, "+opts" if with_opts else ""), f, [m or "absent", shape]
